@@ -295,7 +295,6 @@ def main(latency_control, latency_buffer_size, auto_hosts, to_nameserver,
 
         debug1('latency control setting = %r' % latency_control)
         if latency_buffer_size:
-            import sshuttle.ssnet as ssnet
             ssnet.LATENCY_BUFFER_SIZE = latency_buffer_size
 
         # synchronization header
